@@ -100,6 +100,9 @@ class Ctx:
     def violation(self, sig, msg, witness=None):
         """sig: mechanism signature (never a seed or random value)."""
         self.counters['violations_raw'] += 1
+        if sys.flags.optimize and isinstance(witness, dict) and isinstance(witness.get('unit'), dict):
+            witness['unit']['pyopt'] = True        # the replay must run under -O as well
+            msg = '[python -O] ' + msg
         per_sig = sum(1 for v in self.violations if v['sig'] == sig)
         if per_sig < 3:
             self.violations.append({'sig': sig, 'msg': msg, 'witness': witness})
@@ -138,9 +141,11 @@ def worker_main(pid, tier, seed, unit_file, out_file):
         pre()       # instrumentation that must be in place before the code under test is imported
     import ombott
     root = os.path.realpath(REPO)
-    assert os.path.realpath(ombott.__file__).startswith(root + os.sep), \
-        f'ombott imported from {ombott.__file__}, expected under {root}'
+    if not os.path.realpath(ombott.__file__).startswith(root + os.sep):
+        raise RuntimeError(f'ombott imported from {ombott.__file__}, expected under {root}')
     ctx = Ctx(pid, tier, seed, job['index'])
+    if sys.flags.optimize:
+        ctx.count('units_run_under_python_-O')
     from vmon.vclock import real_time
     t0 = real_time()
     try:
@@ -149,6 +154,12 @@ def worker_main(pid, tier, seed, unit_file, out_file):
         ctx.set_inconclusive(str(e))
     except BaseException:
         ctx.set_inconclusive('worker crashed: ' + traceback.format_exc()[-1500:])
+    try:
+        from vmon import wsgi as _w
+        for k, v in _w.flavour_counts.items():
+            ctx.count('environ_as_built_by_' + k, v)       # which servers' extra environ keys the requests carried
+    except Exception:  # noqa
+        pass
     res = ctx.dump()
     res['wall_s'] = real_time() - t0
     with open(out_file, 'w') as f:
@@ -167,6 +178,16 @@ def run_check(pid, tier, seed, jobs):
     mod = load_mod(pid)
     t0 = time.time()
     units = mod.plan(tier, seed)
+    # PYOPT = {tier: n}: the first n units of every distinct kind are served a second time by an interpreter started with -O
+    n_opt = getattr(mod, 'PYOPT', {}).get(tier, 0)
+    if n_opt:
+        seen_kinds = Counter()
+        extra = []
+        for u in units:
+            if isinstance(u, dict) and seen_kinds[u.get('kind')] < n_opt:
+                seen_kinds[u.get('kind')] += 1
+                extra.append(dict(u, pyopt=True))
+        units = units + extra
     tmp = tempfile.mkdtemp(prefix=f'vmon-{pid}-', dir='/dev/shm' if os.path.isdir('/dev/shm') else None)
     timeout = getattr(mod, 'UNIT_TIMEOUT', {}).get(tier, 1800 if tier == 'quick' else 7200)
     env = dict(os.environ, PYTHONHASHSEED='0', VERIF_REPO=REPO, PYTHONDONTWRITEBYTECODE='1')
@@ -183,8 +204,9 @@ def run_check(pid, tier, seed, jobs):
                 of = os.path.join(tmp, f'o{i}.json')
                 with open(uf, 'w') as f:
                     json.dump({'index': i, 'unit': unit}, f)
+                # a unit marked 'pyopt' is served by an interpreter started with -O (assert statements compiled out)
                 p = subprocess.Popen(
-                    [PY, '-m', 'vmon.runner', '--worker', pid, tier, str(seed), uf, of],
+                    [PY] + (['-O'] if isinstance(unit, dict) and unit.get('pyopt') else []) + ['-m', 'vmon.runner', '--worker', pid, tier, str(seed), uf, of],
                     cwd=HERE, env=env, stdout=subprocess.PIPE, stderr=subprocess.STDOUT)
                 running.append((i, p, of, time.time()))
             time.sleep(0.02)
@@ -342,6 +364,11 @@ def replay(pid, path):
     mod = load_mod(pid)
     with open(path) as f:
         w = json.load(f)
+    wu = (w.get('witness') or {}).get('unit')
+    if isinstance(wu, dict) and wu.get('pyopt') and not sys.flags.optimize:
+        _prep_path()
+        env = dict(os.environ, PYTHONPATH=os.pathsep.join([REPO, HERE]))
+        return subprocess.call([PY, '-O', '-m', 'vmon.runner', pid, '--replay', path], cwd=HERE, env=env)
     ctx = Ctx(pid, w.get('tier', 'quick'), w.get('seed', 0))
     ctx.replaying = True
     print(f'replaying {path}\n  signature: {w["sig"]}\n  recorded: {w["msg"]}')
